@@ -48,7 +48,7 @@ PROBES = ["remove_first_value", "remove_last_value", "remove_middle_value",
           "long_lived_dict_view", "reference_iterator_opened",
           "streaming_removal_through_iterator", "later_value_removed_while_iterator_suspended",
           "field_added_while_view_open", "field_moved_while_view_open",
-          "two_views_of_the_same_field"]
+          "two_views_of_the_same_field", "append_on_a_new_line"]
 
 WSV = ["amd64", "i386", "any", "linux-any", "x", "a1", "#h", "!hurd", "[x]", "ü"]
 ODD_BLANKS = ["\x0c", "\x85", "\u2028", "\x1c"]      # white space, but not line ends
@@ -157,7 +157,8 @@ def generate(seed, run, tier):
          "replace": rs.choice([0, 1, 2]), "ref_set": rs.choice([0, 1, 2]),
          "ref_remove": rs.choice([0, 1, 2]), "commit": rs.choice([2, 3]),
          "abort": rs.choice([0, 0, 1]), "bad": rs.choice([0, 1]), "gc": rs.choice([0, 1])}
-    w.update({"it_open": rs.choice([0, 1, 2]), "it_next": rs.choice([0, 2, 4]),
+    w.update({"append_nl": rs.choice([0, 1, 2]),
+              "it_open": rs.choice([0, 1, 2]), "it_next": rs.choice([0, 2, 4]),
               "add_field": rs.choice([0, 0, 1]), "move_field": rs.choice([0, 0, 1])})
     kindsl = [k for k, v in w.items() for _ in range(v)]
     steps = []
@@ -166,7 +167,7 @@ def generate(seed, run, tier):
     # two clients may hold a view of the SAME field; each commit of a changed view writes
     # that view's list (the last changed commit wins, an untouched commit writes nothing)
     same_field = rs.random() < 0.25
-    for _ in range(rs.choice([3, 6, 12, 30])):
+    for _ in range(rs.choice([3, 6, 12, 30] if tier == "quick" else [3, 6, 12, 30, 60])):
         k = rq.choice(kindsl)
         f = rq.choice(listnames)
         st = {"op": k, "field": f}
@@ -372,7 +373,7 @@ def execute(case):
                 refs = dict(zip(slots, lv.iter_value_references()))
                 views[vkey] = {"v": lv, "m": list(want), "slots": slots, "refs": refs,
                                "changed": False, "next": len(want), "it": None, "itpos": 0,
-                               "itcur": None, "itlive": True}
+                               "itcur": None, "itlive": True, "nl": False}
                 open_order.append(vkey)
                 lines = nl_lines(seg.after_colon)
                 if any(l.startswith("\t") for l in lines[1:]):
@@ -524,6 +525,30 @@ def execute(case):
                     where.update(view_lists=got, want=m)
                     raise Violation("open-view-differs-from-edited-list", op, where)
                 continue
+            # ---- the client starts a new line before its next append
+            if op == "append_nl":
+                try:
+                    lv.append_newline()
+                    exc = None
+                except ValueError:
+                    exc = "ValueError"
+                except Exception as e:   # pylint: disable=broad-except
+                    where["error"] = repr(e)
+                    raise Violation("edit-raised-unexpectedly", op, where)
+                if V["nl"] and exc is None:
+                    raise Violation("second-newline-in-a-row-accepted", op, where)
+                if not V["nl"] and exc is not None:
+                    raise Violation("edit-raised-unexpectedly", op, where)
+                if exc is None:
+                    V["nl"] = True
+                    out.probe("append_on_a_new_line")
+                log.add(si, "append_nl", name, exc)
+                inter.append((name, "append_nl"))
+                out.steps += 1
+                if list(lv) != m or f.dump() != before_doc:
+                    where.update(view_lists=list(lv), want=m)
+                    raise Violation("open-view-differs-from-edited-list", op, where)
+                continue
             # ---- edits inside the transaction
             which = st.get("which", 0)
             val = st.get("val")
@@ -556,6 +581,7 @@ def execute(case):
                         out.probe("append_after_trailing_separator")
                     lv.append(val)
                     if not expect_err:
+                        V["nl"] = False
                         if V["it"] is not None and not V["itlive"]:
                             V["it"] = None     # iterator stands on a removed value: abandoned
                         m.append(val)
